@@ -13,8 +13,9 @@ CONSTANTS WHAT, DEEP, EMIT
 (***************************************************************************)
 (* C13 table: pair lists x headers derived from the list                   *)
 (***************************************************************************)
-UPartsQ == {<<>>, <<"a">>, <<"a", "b">>, <<"c2", "a">>}
-PPartsQ == {<<>>, <<"b">>, <<"b", ":", "a">>, <<":">>, <<"a", "b", "c3">>}
+\* ("ct": a control character -- TAB, DEL, U+0001 --, legal in a configured pair like any other character)
+UPartsQ == {<<>>, <<"a">>, <<"a", "b">>, <<"c2", "a">>, <<"a", "ct">>}
+PPartsQ == {<<>>, <<"b">>, <<"b", ":", "a">>, <<":">>, <<"a", "b", "c3">>, <<"ct", "b">>}
 UPartsD == UPartsQ \cup {<<"A">>, <<"a", "sp">>, <<"c4">>}
 PPartsD == PPartsQ \cup {<<"b", ":">>, <<"a">>, <<"sp">>, <<"c2", "c3", "c4">>}
 \* small sets for lists of three: prefixes of each other, a colon, an empty part
@@ -81,7 +82,7 @@ BaseTok(cfg) == [skey |-> "same", salg |-> cfg.alg, halg |-> cfg.alg, typ |-> "J
                  exp |-> "absent", nbf |-> "absent", iat |-> "absent", pay |-> "obj", mut |-> "none", via |-> "std", method |-> "GET"]
 Cfgs(algs, keys, getters, ptypes, mounts) == [alg : algs, key : keys, getter : getters, ptype : ptypes, mount : mounts]
 Row(c, t) == [mod |-> "jwt", cfg |-> c, tok |-> t]
-K3 == {"k1", "k2", "k3"}
+K3 == {"k1", "k2", "k3", "k4"}          \* (k4: a secret with white space at both ends, which is part of the key like any other byte)
 G2 == {"default", "custom"}
 P2 == {"value", "typed"}
 M2 == {"top", "nested"}
